@@ -31,7 +31,7 @@ fn write_if_changed(path: &Path, content: &str) {
 pub fn compile_text(text: &str, derives: &[String], user_ctx: bool) -> Result<String, (String, String)> {
     let text = text.to_string();
     let derives = derives.to_vec();
-    let r = std::panic::catch_unwind(move || {
+    let r = verif_core::util::catch(move || {
         let g = match PGrammar::from_str(&text) {
             Ok(g) => g,
             Err(e) => return Err(("front".to_string(), format!("{:?}", e))),
